@@ -642,13 +642,13 @@ func (c *c06Case) parsePairs(data []byte, strict bool) []string {
 	var out []string
 	for len(data) > 0 {
 		if len(data) < 4 {
-			out = append(out, "bad")
+			out = append(out, "badframe") // not enough data left for another length prefix
 			break
 		}
 		l := binary.BigEndian.Uint32(data)
 		data = data[4:]
 		if len(data) < int(l) {
-			out = append(out, "bad")
+			out = append(out, "badframe") // not enough data left for the announced pair
 			break
 		}
 		kvp := memberlist.KeyValuePair{}
@@ -708,7 +708,8 @@ func (c *c06Case) doPushPull(a, b int, mode string, arg int) {
 	if mode == "" {
 		c.emit(ev, itoa(int(c.now()))+"!"+ps+"!"+storeA+"!"+c.snap(b))
 	} else {
-		c.emit(ev, itoa(int(c.now()))+"!"+ps+"!"+before+"!"+c.snap(b))
+		// the delivered bytes themselves, so that the model's framing (C06.framesOf) is checked against the loop
+		c.emit(ev, itoa(int(c.now()))+"!"+ps+"!"+before+"!"+c.snap(b)+"!"+hx(string(data)))
 	}
 }
 
@@ -1252,7 +1253,7 @@ func (c *c06Case) run() (cfg, events, obs string) {
 		}
 	}()
 	keys := []string{"r1", "r1", "r1", "r2", "p1", "p1"}
-	if o.script == "gcsilent" {
+	if o.script == "gcsilent" || o.script == "gcresurrect" {
 		// a tombstone reaches a peer only after the retention: the peer's entry is collected in a merge
 		// that reports no change (dedicated GC case, DESIGN C04: mergeValueForKey early return)
 		c.doCAS(0, "r1", "hb:i1:1:A:3")
@@ -1271,6 +1272,13 @@ func (c *c06Case) run() (cfg, events, obs string) {
 		}
 		c.doDeliver(1, len(c.pool)-1)
 		c.doSettle("st")
+		if o.script == "gcresurrect" {
+			// the registrations, produced before the removal and now older than the retention, arrive again:
+			// the tombstone is gone, the entry comes back (allowed: only while retained a tombstone blocks)
+			c.doDeliver(1, 0)
+			c.doDeliver(1, 1)
+			c.doSettle("st")
+		}
 	}
 	if o.script == "unknownleft" && o.nNodes >= 3 {
 		c.scriptUnknownLeft()
